@@ -4,7 +4,7 @@ PROP = dict(
     lean=["Tcell.Props.C01", "Tcell.Props.C01B"], namespaces=["Tcell.Props.C01", "Tcell.Props.C01B", "Tcell.LayerB"], engines=["draw"], classes=["display-", "cursor-", "wide-not-two-columns", "ref-unavailable"],
     trusted_base=[LEAN_TB, CORR_TB, TRANS_TB,
                   "Layer A: abstract terminal Tcell.ATerm (deferred wrap, two-column glyphs, clobbering rules) as the meaning of the draw path's abstract commands",
-                  "Layer B (bytes -> abstract commands): PROVED as a simulation (Props/C01B, Lemmas/LayerB*): Rep(emulator, ATerm) is preserved by feeding Render.renderAll of every command list of every history (sim_all, draw_admits, rep_reach), for all positions, runes (UTF-8, wide, combining), sizes; relative to CapsFx = the effect on the Lean ECMA-48 emulator of the bytes of each command kind. For the class XtermLike (22 DB entries, db_xtermlike) CapsFx is proved for cursor addressing (all positions), cursor hiding, sgr0 (7 forms), each single attribute/underline/reset string and the closed forms of every parameterised expansion for all parameter values; the assembly of the whole setPen / showCursor / clear byte strings into their effect is still validated only (byte-exact correspondence + the reference emulator judging the implementation's own bytes)",
+                  "Layer B (bytes -> abstract commands): PROVED as a simulation (Props/C01B, Lemmas/LayerB*): Rep(emulator, ATerm) is preserved by feeding Render.renderAll of every command list of every history (sim_all, draw_admits, rep_reach), for all positions, runes (UTF-8, wide, combining), sizes; relative to CapsFx = the effect on the Lean ECMA-48 emulator of the bytes of each command kind. For the class XtermLike (22 DB entries, db_xtermlike) CapsFx is proved for cursor addressing (all positions), cursor hiding, sgr0 (7 forms), the whole style block for styles without colours/underline (xl_setPen_attrs_effect), each single attribute/underline/reset string and the closed forms of every parameterised expansion for all parameter values; the assembly of colours and underline inside setPen and of the showCursor / clear byte strings into their effect is still validated only (byte-exact correspondence + the reference emulator judging the implementation's own bytes)",
                   "Layer B starts from an emulator state with the parser in ground state (the bytes of Init/engage are validated by C04, not part of the theorem)",
                   "go-runewidth as regenerated table; encodeRune payload as a parameter (UTF-8 instance)"],
     assumptions=["styles passed by the application do not carry the internal AttrInvalid bit", "Fill is used with width-1 runes",
